@@ -266,6 +266,7 @@ def exec_history(arg) -> dict:
 
     boot.bootstrap()
     plan = arg["plan"]
+    R.apply_ambient(R.plan_ambient(plan["recipes"]))
     refs = arg["refs"]  # recipe index (str) -> reference
     figdir = arg["figdir"]
     os.makedirs(figdir, exist_ok=True)
@@ -770,6 +771,10 @@ def followup_plans(rng, plan: dict, res: dict, limit: int = 3) -> list:
         # and encode documents whose text or measurements go through such state
         at = ext[0]["i"]
         probes = external_probe_recipes(rng)
+        amb = R.plan_ambient(plan["recipes"])
+        if amb:
+            for pr in probes:
+                pr["ambient"] = amb
         recs = json_copy(plan["recipes"]) + probes
         ops = json_copy(plan["ops"][: at + 1])
         for n_ in range(len(probes)):
@@ -910,6 +915,13 @@ def job(j: dict) -> dict:
     root, idx = j["root"], j["idx"]
     rng = core.rng_for(root, PROP, idx)
     plan = gen_plan(rng)
+    arng = core.rng_for(root, PROP, "ambient", idx)
+    if arng.random() < 0.15:
+        # the caller's process has non-default settings (display configuration of the data-frame library, decimal
+        # context, warning filters, cwd, tiny cache capacities ...); references are computed under the same settings
+        amb = arng.choice(R.AMBIENTS)
+        for r in plan["recipes"]:
+            r["ambient"] = amb
     ncal = R.resolve_calibration(plan["recipes"], ws.setdefault("calib_cache", {}))
     refs = ws["refcache"].for_plan(plan)
     t0 = time.monotonic()
